@@ -9,15 +9,23 @@ import ArvVerif.Proofs.C04_RaceCheck0
 import ArvVerif.Proofs.C04_RaceCheck1
 import ArvVerif.Proofs.C04_RaceCheck2
 import ArvVerif.Proofs.C04_RaceCheck3
+import ArvVerif.Proofs.C04_RaceCheck4
+import ArvVerif.Proofs.C04_RaceCheck5
+import ArvVerif.Proofs.C04_RaceCheck6
+import ArvVerif.Proofs.C04_RaceCheck7
 namespace ArvVerif.C04.Race
 
 theorem check_of (c : Cfg) : checkCfg c (tableOf c) = true := by
   have hm := mem_cfgGroup c
-  cases hs : c.serialize <;> cases hl : c.life0 <;> rw [hs, hl] at hm
+  cases hp : c.patched <;> cases hs : c.serialize <;> cases hl : c.life0 <;> rw [hp, hs, hl] at hm
   · exact (List.all_eq_true.mp checkGroup0) c hm
   · exact (List.all_eq_true.mp checkGroup1) c hm
   · exact (List.all_eq_true.mp checkGroup2) c hm
   · exact (List.all_eq_true.mp checkGroup3) c hm
+  · exact (List.all_eq_true.mp checkGroup4) c hm
+  · exact (List.all_eq_true.mp checkGroup5) c hm
+  · exact (List.all_eq_true.mp checkGroup6) c hm
+  · exact (List.all_eq_true.mp checkGroup7) c hm
 
 theorem run_inv (c : Cfg) (sched : List Bool) : Inv (tableOf c) (run sched (init c)) :=
   checkCfg_run (check_of c) sched _ (checkCfg_init (check_of c))
@@ -73,9 +81,9 @@ theorem rank_zero_finished {s : St} (h : rank s = 0) : finished s = true := by
   have ht : s.pcT = .done := by cases hq : s.pcT <;> simp [hq, rankT] at h2 <;> rfl
   simp [finished, hp, ht]
 
-theorem rank_le (s : St) : rank s ≤ 22 := by
+theorem rank_le (s : St) : rank s ≤ 24 := by
   unfold rank
-  have h1 : rankP s.pcP ≤ 15 := by cases s.pcP <;> simp [rankP]
+  have h1 : rankP s.pcP ≤ 17 := by cases s.pcP <;> simp [rankP]
   have h2 : rankT s.pcT ≤ 7 := by cases s.pcT <;> simp [rankT]
   omega
 
